@@ -75,6 +75,9 @@ R.contract(M + "anonymize_as_numbers", record=True,
            requires=["AsOK(anonymizer)"],
            ensures=["True"],
            loops={"sub0": LoopContract([], invariant=["AsOK(anonymizer)"],
+                                       # C11: every matched number is replaced by its own replacement, a function of
+                                       # salt and number only
+                                       step_ensures=["REPL == Repl(anonymizer.salt, MATCH)"],
                                        # ASSUMED: a match of the compiled template is one of the listed numbers (the
                                        # regular-language obligations as_num_regex#* decide this for the template)
                                        match_assume=["any(n == MATCH for n in anonymizer.numbers)"])})
